@@ -100,6 +100,30 @@ T.update({
    demo="demo_c20.rs (in wrappers/parking_lot/parking_lot_impl/tests)",
    catches={"C20":"lock-program-deadlocked (try-variants must leave nothing behind)"}),
 })
+
+# second round (agents told which mechanism the first-round seed had used)
+T.update({
+ "C05b": dict(property="C05", run_checks=["C05","C03"],
+   change="Task::unblock resets the whole ParkState (also a pending unpark token) instead of only the blocked_in_park flag",
+   needs="an unpark delivered before the target blocks on something else (mutex hand-off, barrier, channel, condvar, semaphore) and parks afterwards",
+   demo="demo_c05.rs: unpark then mutex hand-off / barrier / ... then park: must not deadlock",
+   catches={"C05":"unsound:deadlock-not-allowed, trace-nonconformant:end:deadlock (after strengthening: the Park family only combined park with atomics; five corpus programs now put another blocking primitive between the unpark and the park)"}),
+ "C06b": dict(property="C06", run_checks=["C06"],
+   change="recv_internal: the 'empty and no senders left -> Disconnected' test moved below the rendezvous block, whose early return makes try_recv on a closed rendezvous channel report Empty",
+   needs="capacity 0, non-blocking receive, every sender dropped",
+   demo="demo_c06.rs",
+   catches={"C06":"unsound:result-not-allowed, trace-nonconformant:TryRecv (caught as built)"}),
+ "C07b": dict(property="C07", run_checks=["C07"],
+   change="StorageMap::pop removes the slot instead of leaving a destroyed marker: a later access re-creates the thread-local",
+   needs="a destructor that accesses an already destroyed thread-local of the same thread (or its own key: endless destructor loop)",
+   demo="demo_c07.rs",
+   catches={"C07":"thread-program-panicked (after strengthening: the check's own destructors access their key, so the seeded change made the check loop forever; an online guard in the initialisers now fails the execution on a second initialisation, and a per-item wall-clock watchdog turns any other hang into 'inconclusive')"}),
+ "C20b": dict(property="C20", run_checks=["C20"],
+   change="dashmap replacement remove_if evaluates the predicate under a read lock and removes under a separate write lock",
+   needs="a writer of the same key between the two critical sections that turns the predicate false",
+   demo="demo_c20.rs (wrappers/dashmap/dashmap_impl/tests)",
+   catches={"C20":"not-linearisable (after strengthening: generated programs hit the window too rarely; a corpus of compound operations racing with writers of the same key was added and the quick budget raised)"}),
+})
 for k, v in T.items():
     d = f"/verif/seeded/{k}"
     if not os.path.isdir(d):
